@@ -374,7 +374,20 @@ func c04Lookup(c *Ctx, prog *load.Program) {
 		detail := ""
 		var pos string
 		for k := int64(0); k <= 15 && okAll; k++ {
-			r := RunFn(prog, set, fname, &RunOpts{Args: []ArgSpec{{Alias: -1, SameSymsAs: -1}, {Alias: -1, SameSymsAs: -1}, {Alias: -1, SameSymsAs: -1, Val: sym.ConstI(k)}}})
+			// operands by position and type: the table (receiver), the accumulator (first *Point), optional scratch
+			// points, the window (the integer operand)
+			args := []ArgSpec{{Alias: -1, SameSymsAs: -1}, {Alias: -1, SameSymsAs: -1}, {Alias: -1, SameSymsAs: -1, Val: sym.ConstI(k)}}
+			if f := absint.FindFunc(prog.SSA, fname); f != nil && len(f.Params) > 3 {
+				args = nil
+				for _, p := range f.Params {
+					a := ArgSpec{Alias: -1, SameSymsAs: -1}
+					if b, isB := p.Type().Underlying().(*types.Basic); isB && b.Info()&types.IsInteger != 0 {
+						a.Val = sym.ConstI(k)
+					}
+					args = append(args, a)
+				}
+			}
+			r := RunFn(prog, set, fname, &RunOpts{Args: args})
 			pos = PosOf(prog, r.Fn)
 			if !r.OK() {
 				okAll, detail = false, r.Problem()
